@@ -16,18 +16,18 @@ TECH = {
     "C02": "static analysis: units (dimension+scale) abstract interpretation, who-writes/who-calls maps, argument binding, linear-form index offsets",
     "C03": "static analysis: clamp-operand coverage via reaching definitions with region case analysis, noise taint (lowered/raised) to state sinks, validate-before-write on CFG, computer-algebra identities of the continuous closed form against the differential law",
     "C04": "static analysis: validate-before-write path rule on CFG, linear-form slice bounds, list-construction provenance, None-discipline dataflow, decision table of set_pilot, must-pass-through growth of the history arrays",
-    "C05": "static analysis: short-circuit truth table of the recompute condition, CFG ordering, alias/escape classification of Interface returns (shallow copies keep element aliasing), argument binding, same-name constructor and per-station accessor tables",
+    "C05": "static analysis: short-circuit truth table of the recompute condition, CFG ordering, alias/escape classification of Interface returns (shallow copies keep element aliasing), memo-guard coverage (stateless view), derived-state coherence, argument binding, same-name constructor and per-station accessor tables",
     "C06": "static analysis: sibling agreement of the three feasibility checkers (tolerance formula, defaults, abs placement) by mode specialisation of gated expressions, symbolic array shapes, decision table of row acceptance, None-discipline",
     "C07": "static analysis: must-pass-through pipeline, clamp operand coverage, tentative-write-validated-or-reverted path rule, typestate dataflow (value written x feasibility verdict) over the CFG of the finite-rate search, index-domain typing",
     "C08": "static analysis: folded sort-order table, queue-order iteration dataflow, typestate dataflow of the finite-rate search (largest level first, one step at a time, 0 only when exhausted), bisection edge rules, deque end discipline",
     "C09": "static analysis: serialisation agreement (written attrs = dumped keys = restored keys, whole value dumped), registry threading and protocol-dictionary binding, JSON order options, same-name constructors, CFG ordering of run() around the scheduler call",
-    "C10": "static analysis: index-domain provenance typing, confinement of random/time/set iteration, affine use of absolute time",
+    "C10": "static analysis: index-domain and order-provenance typing, confinement of random/time/set iteration, affine use of absolute time, station-order round trip of the serialised network, densification and argument-binding rules shared with C04 / C05",
     "C11": "static analysis: who-writes heap discipline, heap key influence, truth atoms of the inclusive cut, derived-query influence sets",
-    "C12": "static analysis: co-mutation of parallel arrays, by-name reindex dataflow, all-paths-return-Current closure, validate-before-write",
+    "C12": "static analysis: co-mutation of parallel arrays, by-name reindex dataflow, all-paths-return-Current closure with the result as a linear form in (self, other) on every path (decision table), validate-before-write",
     "C13": "static analysis: validate-before-mutate CFG rule and decision table of set_pilot, who-writes / who-calls confinement of the occupant, sibling exhaustiveness, advertiser/validator attribute agreement, cache refresh must-follow, escape analysis, per-station accessor table",
     "C14": "static analysis: clamp operand coverage, units abstract interpretation of every two-stage formula, CFG dominance of zero-pilot return, computer-algebra identities (symbolic differentiation/simplification of the expanded source expressions against the documented differential law)",
     "C15": "static analysis: interprocedural units abstract interpretation incl. capacity-function protocol, sibling argument binding, field-to-role dataflow, guard/edge rules of the capacity fit, computer-algebra identities of the fit's formulas against the battery law",
-    "C16": "static analysis: closed-term partial evaluation of the site factories with symbolic capacities and a tainted voltage argument; structural wye/delta check + hand lemma",
+    "C16": "static analysis: closed-term partial evaluation of the site factories (constants, sibling-module helpers, in-place Current semantics) with symbolic capacities and a tainted voltage argument; structural wye/delta check + hand lemma; algebra and feasibility rules shared with C12 / C06",
     "C17": "static analysis: exhaustive calendar partition of the bundled JSON tables, folded masks, comparison atoms, units of cost formulas",
     "C18": "static analysis: units abstract interpretation + required influence sets/reductions per analysis function, name/row order provenance",
     "C19": "static analysis: exactly-one-placement path enumeration, FIFO end discipline, counter-edge agreement, None-discipline of station occupants, must-exist call in run()",
